@@ -330,6 +330,7 @@ for _i in range(1, 21):
 # handlers that end without raising: (file, exception type) -> reason
 SWALLOW_REVIEWED = {
     ("pyoda_time/text/_local_date_time_pattern_parser.py", "OverflowError"): "24:00 on the last day of the calendar: converted to the out-of-range failure result (parsing never raises)",
+    ("pyoda_time/calendars/_hebrew_year_month_day_calculator.py", "OverflowError"): "the month search probes start + n months beyond `end` on purpose; a probe outside the calendar is an overshoot (R09.18 requires this handler)",
     ("pyoda_time/_compatibility/_culture_info.py", ""): "unknown culture names fall back to the invariant culture (compatibility layer, not claimed)",
 }
 
@@ -353,7 +354,7 @@ def swallowing_handlers(ctx: Ctx):
 
 def _make_swallow(prop: str):
     def r_swallow(ctx: Ctx) -> RuleResult:
-        rr = RuleResult(f"R{prop[1:]}.swallow", "no exception is converted into an ordinary value: every `except` handler re-raises (two reviewed conversions excepted), no contextlib.suppress", min_instances=1)
+        rr = RuleResult(f"R{prop[1:]}.swallow", "no exception is converted into an ordinary value: every `except` handler re-raises (three reviewed conversions excepted), no contextlib.suppress", min_instances=1)
         files = None if prop in ("C08", "C13", "C20") else anchor_scope(ctx, prop)
         rr.inst(nontrivial=False)
         rr.ok({"scope": "whole package" if files is None else "anchor files"})
